@@ -415,6 +415,11 @@ def splice_stmts(rel, impl_sel, fn_name, opts, ghost_lines=()):
     text = open(path).read()
     s, ob, cb = locate_fn(text, impl_sel, fn_name)
     what = "%s::%s" % (impl_sel, fn_name)
+    if opts.get("body"):
+        # body=1: the WHOLE body of the function (everything between its braces), whatever it says
+        code = strip_comments_and_attrs(text[ob + 1:cb])
+        d = ["%s: the whole function body is extracted (the signature is replaced by the wrapper's); attributes and comments dropped" % what]
+        return _finish_stmts(rel, what, code, d, opts, ghost_lines)
     if "from" not in opts:
         raise ExtractError("splice-stmts %s: from= missing" % what)
     m = find_code(text, re.escape(opts["from"]), ob + 1, cb)
@@ -455,6 +460,10 @@ def splice_stmts(rel, impl_sel, fn_name, opts, ghost_lines=()):
         d.append("%s: block header `%s` dropped, the block body is verified for an arbitrary element / under the stated precondition" % (what, hdr))
         raw = raw[o.start() + 1:c]
     code = strip_comments_and_attrs(raw)
+    return _finish_stmts(rel, what, code, d, opts, ghost_lines)
+
+
+def _finish_stmts(rel, what, code, d, opts, ghost_lines):
     for pre in [p for p in opts.get("dropstmt", "").split("@@") if p]:
         code, cnt = drop_statements(code, pre, what)
         d.append("%s: %d statement(s) starting with `%s` dropped (declared drop: event publication / tracing)" % (what, cnt, pre))
